@@ -30,9 +30,13 @@ def run_replay_file(prop, path):
     print(json.dumps({k: doc.get(k) for k in ("property", "obligation", "function", "exception", "where", "replayed")},
                      indent=1, default=str))
     rp = doc.get("replayed") or {}
-    if rp.get("script"):
+    script = rp.get("script") or (doc.get("case") or {}).get("script")
+    if script:
+        # the script exits 1 when the violation shows on the tree named by PYVC_REPO (default /repo), 0 otherwise
         import subprocess
-        p = subprocess.run([sys.executable, "-c", rp["script"]], capture_output=True, text=True)
+        p = subprocess.run([sys.executable, "-c", script], capture_output=True, text=True,
+                           env=dict(os.environ, PYVC_REPO=os.environ.get("PYVC_REPO", "/repo")))
         print(p.stdout[-2000:], p.stderr[-2000:])
         return 1 if p.returncode != 0 else 0
+    print("no replay script: the replay file names the failed obligation and carries the solver's output")
     return 1
